@@ -42,7 +42,9 @@ class PureFunction(object):
         pass
 
     def objparams(self) -> List:
-        return self._cur_objparams
+        # the tensors the object holds now (its owner may have re-assigned them since this
+        # wrapper was made), not the ones recorded when the wrapper was made
+        return list(self._uniq.get_unique_objs(self._get_all_obj_params_now()))
 
     def _get_all_obj_params_now(self) -> List:
         # the tensors the object holds at this moment under the recorded names
